@@ -7,10 +7,10 @@
 EXTENDS JsonValue
 
 ca == <<97>>  cb == <<98>>  cc == <<99>>
-N1   == Num("1", "1e0")
-N10  == Num("1.0", "1e0")
-NBig == Num("12345678901234567890123", "12345678901234567890123e0")
-NBig2 == Num("12345678901234567890124", "12345678901234567890124e0")
+N1   == Num(<<49>>)      \* 1
+N10  == Num(<<49,46,48>>)      \* 1.0
+NBig == Num(<<49,50,51,52,53,54,55,56,57,48,49,50,51,52,53,54,55,56,57,48,49,50,51>>)      \* 12345678901234567890123
+NBig2 == Num(<<49,50,51,52,53,54,55,56,57,48,49,50,51,52,53,54,55,56,57,48,49,50,52>>)      \* 12345678901234567890124
 SX   == Str(<<120>>)
 
 Leaf  == { Null, N1, N10, SX }
